@@ -25,6 +25,11 @@ T = {
   text='Generated search over scripts with >=3 waiters on overlapping resources; exact callback log comparison where the statement fixes the order, per-instant set comparison otherwise; invariants (at most once, fits at invocation, nobody feasible waits when time advances) always.',
   note='Availability-check scheduling discipline taken from the statement; callbacks enforce at-most-once inside the harness so a re-entrant loop becomes a violation, not a hang.', ref='4 C10'),
 }
+T['C04'] = dict(engine='E4 serial',
+  technique='property-based testing: Hypothesis-generated serial lines compared exactly with an independent max-plus reference recurrence; documented example counts as fixed cases',
+  text='Generated search: every received_part time list of every station and the sink is compared exactly with the blocking-after-service recurrence written from the statement, for generated station kinds, cycle times, delays, capacities, budgets, horizons and tie-break policies; SingleProcessor (99) and BufferExample (10079) are fixed cases.',
+  note='Constant parameters on the dyadic grid; the reference is independent of the code under test; 50000 events without clock progress is reported as the line never reaching its horizon.', ref='4 C04')
+
 
 def e3(text, note, ref, tech):
     return dict(engine='E3 linefuzz', technique='property-based testing: Hypothesis-generated whole production models run through the real event queue under a step monitor; ' + tech,
@@ -95,6 +100,8 @@ def main():
              'kind_free_text': 'operation histories on a bare Environment vs reference queue model'},
             {'name': 'E2 rmmachine', 'path': 'engines/rmmachine.py', 'serves_properties': ['C09', 'C10'],
              'kind_free_text': 'operation histories on ResourceManager vs reference pool / waiting-list model'},
+            {'name': 'E4 serial', 'path': 'engines/serial.py', 'serves_properties': ['C04'],
+             'kind_free_text': 'serial lines vs max-plus reference recurrence'},
             {'name': 'E3 linefuzz', 'path': 'engines/linefuzz.py', 'serves_properties': ['C02', 'C03', 'C05', 'C06', 'C08', 'C11', 'C13', 'C15', 'C16', 'C17'],
              'kind_free_text': 'generated whole production models + step monitor (engines/lf_model.py, lf_monitor.py, e3gen.py)'},
         ],
